@@ -68,7 +68,7 @@ REQUIRED_CATEGORIES = [
     "marginal_diss_zero", "marginal_0<|diss|<1e-12", "marginal_1e-12<=|diss|<1e-10", "marginal_1e-10<=|diss|<1e-8",
     "marginal_below_1e-10_finite_result", "family_seam", "diriter_members", "diriter_finite_result",
     "diriter_balance_checked", "diriter_mean_direction_on_the_0/360_seam", "diriter_direction_moved",
-    "diriter_zero_dissipation_u10_zero",
+    "diriter_zero_dissipation_u10_zero", "zero_dissipation_nonzero_dedt_u10_zero", "dedt_absolute_rate",
 ]
 
 DELTA = 0.05
@@ -85,7 +85,9 @@ WIDTHS = {"quick": [30.0], "thorough": [15.0, 30.0, 40.0]}
 MEANS = [45.0 * k for k in range(8)]
 DEPTHS = [float("inf"), 20.0]
 PAIRS = ["st4/st4", "st4/st6"]
-VARIANTS = ["none", "in+10", "in-10", "out+10", "out-10"]
+# "E/+6h": dE/dt = +E/(6 h) (growing sea), "E/-6h", "E/-1h": decaying; these do not scale with the dissipation, so
+# they are non-zero for the seas below the breaking threshold (oracle there: u10 == 0 exactly)
+VARIANTS = ["none", "in+10", "in-10", "out+10", "out-10", "E/+6h", "E/-6h", "E/-1h"]
 GRID_TIERS = {"quick": ["g20x24"], "thorough": ["g20x24", "g12x16", "g24x36"]}
 
 
@@ -493,8 +495,13 @@ def run_unit(unit):
 
     for variant in unit["variants"]:
         # ---- the rate-of-change spectrum of this variant --------------------------------------
+        zero_only = variant.startswith("E/")
         if variant == "none":
             dedt = None
+        elif zero_only:
+            hours = float(variant[2:-1])
+            dedt = E / (hours * 3600.0)
+            c.cat("dedt_absolute_rate")
         else:
             amp = (0.1 if variant.endswith("+10") else -0.1) * np.abs(diss)
             shape = E / np.where(m0 > 0, m0, 1.0)[:, None, None]
@@ -521,7 +528,7 @@ def run_unit(unit):
                 c.cat("finite_depth")
 
         ok = ~failed
-        pos = ok & np.isfinite(u10) & (u10 > 0) & (diss != 0.0)
+        pos = ok & np.isfinite(u10) & (u10 > 0) & (diss != 0.0) & (not zero_only)
         for i in np.nonzero(ok)[0]:
             hs, fp, mean, dep, w, fam = mem[i]
             key = mkey(key0, i)
@@ -531,6 +538,13 @@ def run_unit(unit):
                 else:
                     c.violation(dict(key, check="zero_dissipation"),
                                 f"bulk dissipation is exactly 0 but u10={u10[i]!r} [{mtxt(i)}]")
+                if zero_only and u10[i] == 0.0:
+                    c.cat("zero_dissipation_nonzero_dedt_u10_zero" if np.any(dedt[i] != 0.0) else "zero_dissipation_empty_spectrum")
+                continue
+            if zero_only:
+                # absolute-rate variants: only the zero-dissipation clause is decided here (the breaking members are in
+                # the batches so that zero-dissipation seas sit next to breaking ones)
+                c.cat("absolute_rate_variant_breaking_member_not_evaluated")
                 continue
             # direction (well conditioned: dissipation is non-zero)
             c.cat("direction_checked")
@@ -566,7 +580,7 @@ def run_unit(unit):
                 closed_plain[ip] = closed
 
         # non-degeneracy: members with non-zero dissipation and a missing result
-        miss = ok & (diss != 0.0) & np.isnan(u10)
+        miss = ok & (diss != 0.0) & np.isnan(u10) & (not zero_only)
         if np.any(miss):
             im = np.nonzero(miss)[0]
             has, lo, hi, blo, bhi = find_roots(im, dedt, "missing_result")
